@@ -48,6 +48,12 @@ impl Quat {
             return Self::identity();
         }
         let len = crate::det_sqrt_f32(len_sq);
+        // `det_sqrt_f32` clamps a non-finite argument to zero: an axis whose
+        // squared length overflows has no representable length, so treat it
+        // like the degenerate axis instead of dividing by zero.
+        if len <= EPSILON {
+            return Self::identity();
+        }
         let norm_axis = axis.scale(1.0 / len);
         let half = angle * 0.5;
         let (sin_half, cos_half) = trig::sin_cos_f32(half);
